@@ -131,6 +131,43 @@ void harness(void)
 		VASSERT(((struct pdu_header *)pdu)->len == hlen && ((struct pdu_header *)pdu)->type == ht,
 			"C04 receive: header handed on in host byte order");
 		VASSERT(w_nsent == 0, "C14 receive: nothing is sent for an accepted PDU");
+		/* the PDU handed on is the PDU as received: single-byte fields unchanged, multi-byte fields
+		 * converted to host order (an Error Report later echoes this copy, C14)
+		 */
+		if (ht == IPV4_PREFIX || ht == IPV6_PREFIX) {
+			const struct pdu_ipv4 *p = (const struct pdu_ipv4 *)pdu;
+
+			VASSERT(p->flags == w_stream[8] && p->prefix_len == w_stream[9] && p->max_prefix_len == w_stream[10] &&
+					p->zero == w_stream[11],
+				"C14 receive: flags, lengths and the reserved octet of a prefix PDU are handed on as received");
+			if (ht == IPV4_PREFIX)
+				VASSERT(p->prefix == w_be32(w_stream + 12) && p->asn == w_be32(w_stream + 16),
+					"C04 receive: prefix and AS of an IPv4 PDU are handed on in host byte order");
+			else
+				VASSERT(((const struct pdu_ipv6 *)pdu)->prefix[0] == w_be32(w_stream + 12) &&
+						((const struct pdu_ipv6 *)pdu)->prefix[3] == w_be32(w_stream + 24) &&
+						((const struct pdu_ipv6 *)pdu)->asn == w_be32(w_stream + 28),
+					"C04 receive: prefix and AS of an IPv6 PDU are handed on in host byte order");
+		}
+		if (ht == ROUTER_KEY && STREAM_LEN >= 123) {
+			const struct pdu_router_key *p = (const struct pdu_router_key *)pdu;
+
+			VASSERT(p->flags == w_stream[2] && p->zero == w_stream[3] && p->ski[0] == w_stream[8] &&
+					p->ski[19] == w_stream[27] && p->asn == w_be32(w_stream + 28) && p->spki[0] == w_stream[32] &&
+					p->spki[90] == w_stream[122],
+				"C14 receive: a Router Key PDU is handed on as received");
+		}
+		if (ht == EOD || ht == SERIAL_NOTIFY || ht == CACHE_RESPONSE)
+			VASSERT(((const struct pdu_serial_notify *)pdu)->session_id == w_be16(w_stream + 2),
+				"C05 receive: the session id is handed on in host byte order");
+		if (ht == EOD || ht == SERIAL_NOTIFY)
+			VASSERT(((const struct pdu_serial_notify *)pdu)->sn == w_be32(w_stream + 8),
+				"C05 receive: the serial number is handed on in host byte order");
+		if (ht == EOD && hlen == 24)
+			VASSERT(((const struct pdu_end_of_data_v1 *)pdu)->refresh_interval == w_be32(w_stream + 12) &&
+					((const struct pdu_end_of_data_v1 *)pdu)->retry_interval == w_be32(w_stream + 16) &&
+					((const struct pdu_end_of_data_v1 *)pdu)->expire_interval == w_be32(w_stream + 20),
+				"C17 receive: the intervals of End of Data are handed on in host byte order");
 #ifdef ASSERT_C13
 		VASSERT(hv == sock.version || ht == ERROR, "C13 receive: accepted PDU carries the negotiated version");
 		if (ht == EOD)
